@@ -471,6 +471,11 @@ def dispatch(eng, st, body, callee, args):
     if Tr == "Clone" and meth == "clone":
         v = eng.deref_all(st, args[0]) if isinstance(args[0], Ptr) else args[0]
         return _o(st, v)
+    # ---- HashSet of concrete keys
+    if T == "HashSet" or (Tr == "FromIterator" and "HashSet" in callee):
+        r = hashset_ops(eng, st, Tr, meth, args)
+        if r is not None:
+            return r
     if Tr in ("Into", "From") and meth in ("into", "from") and len(args) == 1:
         v = args[0]
         if is_scalar(v) or isinstance(v, (Seq, Struct)):
@@ -495,6 +500,10 @@ def dispatch(eng, st, body, callee, args):
         if not isinstance(arr, Seq):
             raise Unsupported("vec![] payload is not an array")
         return _o(st, arr)
+    if T in ("String", "impl:str", "str") and meth in ("from", "as_str", "clone", "to_string", "to_owned", "into") and args:
+        v = eng.deref_all(st, args[0])
+        if isinstance(v, Opaque) and (v.tag.startswith("S:") or v.tag.startswith("str:")):
+            return _o(st, v)
     if T in ("String", "impl:str", "str") and meth in ("new", "from", "as_str", "clone", "len", "is_empty", "push_str"):
         return _o(st, Opaque("String"))
     if Tr == "Default" and meth == "default" and T == "String":
@@ -783,6 +792,8 @@ def _map_of(eng, st, p):
 
 
 def _key_eq(a, b):
+    if isinstance(a, Opaque) and isinstance(b, Opaque) and a.tag.startswith("S:") and b.tag.startswith("S:"):
+        return a.tag == b.tag
     if isinstance(a, Enum) and isinstance(b, Enum) and not a.fields and not b.fields:
         return a.variant == b.variant
     if isinstance(a, (int, str)) and isinstance(b, (int, str)):
@@ -825,6 +836,38 @@ def hashmap_ops(eng, st, meth, args):
                 return _o(st, Enum("Option", 1, [it.fields[1]]))
         eng.store_ptr(st, q, Struct("HashMap", [Seq(items + (Struct("()", [k, v]),))]))
         return _o(st, Enum("Option", 0, ()))
+    return None
+
+
+def hashset_ops(eng, st, Tr, meth, args):
+    from engine import Outcome
+    if meth == "from_iter":
+        it = _as_iter(eng, st, args[0]) if not isinstance(args[0], IterV) else args[0]
+        outs = []
+        for (s, items) in iter_all_items(eng, st, it):
+            keys = []
+            for x in items:
+                x = eng.deref_all(s, x)
+                if not any(_key_eq(x, y) for y in keys):
+                    keys.append(x)
+            outs.append(Outcome(s, "ret", Struct("HashSet", [Seq(keys)])))
+        return outs
+    if meth in ("new", "default"):
+        return _o(st, Struct("HashSet", [Seq(())]))
+    a = eng.deref_all(st, args[0])
+    if not (isinstance(a, Struct) and a.ty == "HashSet"):
+        return None
+    if meth == "difference":
+        b = eng.deref_all(st, args[1])
+        keep = [x for x in a.fields[0].elems if not any(_key_eq(x, y) for y in b.fields[0].elems)]
+        return _o(st, IterV("owned", Seq(keep), 0, len(keep)))
+    if meth == "len":
+        return _o(st, len(a.fields[0].elems))
+    if meth == "is_empty":
+        return _o(st, len(a.fields[0].elems) == 0)
+    if meth == "contains":
+        k = eng.deref_all(st, args[1])
+        return _o(st, any(_key_eq(x, k) for x in a.fields[0].elems))
     return None
 
 
